@@ -94,6 +94,10 @@ func c15Specials(full bool) []c15Special {
 		c15Special{"tombstone=1", data.Point{Type: "tb", Value: 4, Text: "gone", Tombstone: 1}, false},
 		c15Special{"tombstone=2", data.Point{Type: "tb", Value: 4, Text: "back", Tombstone: 2}, false},
 		c15Special{"edge text", data.Point{Type: "etx", Text: "edge: text", Value: 1.5}, true},
+		c15Special{"edge zero value", data.Point{Type: "slot", Key: "a", Value: 0}, true},
+		c15Special{"edge tombstoned point", data.Point{Type: "etb", Value: 4, Text: "x", Tombstone: 1}, true},
+		c15Special{"edge tombstoned zero point", data.Point{Type: "ez", Tombstone: 1}, true},
+		c15Special{"zero value point", data.Point{Type: "zv", Key: "b", Value: 0}, false},
 		c15Special{"nodeID->sibling", data.Point{Type: data.PointTypeNodeID, Text: "REF-LAST"}, false},
 		c15Special{"nodeID->top", data.Point{Type: data.PointTypeNodeID, Text: "REF-TOP"}, false},
 		c15Special{"nodeID->outside", data.Point{Type: data.PointTypeNodeID, Text: "outside-id"}, false},
@@ -469,7 +473,7 @@ func checkC15(r *mc.Report, thorough bool) {
 	}
 	specials := c15Specials(thorough)
 	r.Explore(mc.Config{Name: name, SplitDepth: 2, StopAfterViolations: 60,
-		Rule: fmt.Sprintf("%d special point contents (YAML-significant / Unicode / control strings as text and as key, values incl. exponent forms and infinities, keys \"\"/\"0\"/array/map, tombstoned points, edge points, node-id references to sibling / top / outside / empty) x 10 tree shapes (depth <=3, fan-out <=2, deleted child, deleted subtree, mirrored child, moved top node, moved child: oldest edge tombstoned) x every node position x import target {same parent, other parent, other instance} x preserveIDs {no, yes}; imported subtree compared with the exported one under one consistent id bijection", len(specials))},
+		Rule: fmt.Sprintf("%d special point contents (YAML-significant / Unicode / control strings as text and as key, values incl. exponent forms and infinities, keys \"\"/\"0\"/array/map, tombstoned points, edge points (with text, zero-valued, tombstoned), node-id references to sibling / top / outside / empty) x 10 tree shapes (depth <=3, fan-out <=2, deleted child, deleted subtree, mirrored child, moved top node, moved child: oldest edge tombstoned) x every node position x import target {same parent, other parent, other instance} x preserveIDs {no, yes}; imported subtree compared with the exported one under one consistent id bijection", len(specials))},
 		c15Body(thorough))
 	sh.CleanupTemplate()
 	r.Assume("compared per point: type, normalised key, value bit-wise, text, tombstone (time, origin and data are not part of the statement); tombstone=0 edge points and the nodeType point are implementation noise and ignored")
